@@ -63,6 +63,9 @@ def ops_for(rng, d, path, comments, depth):
     hp = hx(path)
     if d.typ == 'sec':
         if d.is_multi and d.flags & F_TITLE:
+            if depth == 0 and rng.random() < 0.02:
+                for k in range(rng.choice([17, 33, 70])):
+                    L.append('addtsec 0 %s %s' % (hx(path), hx('many %d' % k)))
             title = rand_bytes(rng)
             L.append('addtsec 0 %s %s' % (hx(path), hx(title)))
             sub = [x for x in (d.sub or [])]
@@ -79,7 +82,13 @@ def ops_for(rng, d, path, comments, depth):
     if d.typ not in ('int', 'float', 'bool', 'str'):
         return L
     r = rng.random()
-    if d.is_list and d.typ == 'str' and rng.random() < 0.08:
+    if d.is_list and rng.random() < 0.02:
+        # big lists: every array-growth step and every line-wrap position of the printer
+        n = rng.choice([16, 17, 32, 33, 64, 65, 257, 1025])
+        vals = [sval(rng, d.typ) if d.typ != 'str' else hx('e%d' % k) for k in range(n)]
+        for k in range(0, n, 4):          # (the variadic calls take at most four values in the driver)
+            L.append('%s 0 %s %s %d %s' % ('setlist' if k == 0 else 'addlist', hp, d.typ, len(vals[k:k + 4]), ' '.join(vals[k:k + 4])))
+    elif d.is_list and d.typ == 'str' and rng.random() < 0.08:
         # NULL elements (only the API can make them)
         n = rng.randint(1, 3)
         vals = [sval(rng, 'str') for _ in range(n)]
